@@ -267,7 +267,7 @@ def _registry_private_copy(repo: Repo) -> bool:
 def _reinit_opt(ck: Check, repo: Repo) -> None:
     fn = repo.fn(MUT, "Mutations.reinit_opt")
     ows = [c for c in calls_in(fn.node, nested=True) if call_name(c) == "OptimizerWrapper"]
-    ck.floor("C06.5", len(ows), 1, "OptimizerWrapper construction in reinit_opt")
+    ck.floor("C06.5", len(ows), 1, "OptimizerWrapper construction in reinit_opt", fn=fn)
     inner = [n for n in ast.walk(fn.node) if isinstance(n, ast.FunctionDef) and n is not fn.node]
     for c in ows:
         lr = get_kw(c, "lr", 2)
